@@ -144,6 +144,17 @@ class _Loader(importlib.machinery.SourceFileLoader):
         post_exec(module)
 
 
+# the memoisations this machinery knows and models (C15 decides their key determinacy); any OTHER lru_cache stays in
+# place, so that symbolic arguments reaching it raise Unsupported (=> the path is reported as not decided) instead of the
+# cache being silently assumed transparent
+KNOWN_CACHES = {
+    "data": {"get_is_leap_year", "_get_days_in_year_range", "_get_days_in_year", "_get_days_in_month", "_get_weeks_in_year",
+             "_get_calendar_date_week_date_start", "_get_days_since_1_ad", "_get_ordinal_date_week_date_start",
+             "_iter_months_days"},
+    "dumpers": {"TimePointDumper._get_expression_and_properties", "TimePointDumper.get_time_zone"},
+}
+
+
 def post_exec(module):
     """Re-bind names the module itself imported (floor) and strip lru_cache
     wrappers from module-level functions (a C-level cache would hash() the
@@ -151,17 +162,26 @@ def post_exec(module):
     d = module.__dict__
     if "floor" in d:
         d["floor"] = core.sym_floor
-    unwrapped = {}
+    short = module.__name__.split(".")[-1]
+    known = KNOWN_CACHES.get(short, set())
+    unwrapped, unknown = {}, []
     for name, f in list(d.items()):
-        if hasattr(f, "__wrapped__") and hasattr(f, "cache_info"):
-            unwrapped[name] = f
-            d[name] = f.__wrapped__
-    d["__symx_lru__"] = unwrapped
+        if hasattr(f, "__wrapped__") and hasattr(f, "cache_info") and getattr(f, "__module__", None) == module.__name__:
+            if name in known:
+                unwrapped[name] = f
+                d[name] = f.__wrapped__
+            else:
+                unknown.append(name)
     for name, cls in list(d.items()):
         if isinstance(cls, type) and cls.__module__ == module.__name__:
             for an, f in list(vars(cls).items()):
                 if hasattr(f, "__wrapped__") and hasattr(f, "cache_info"):
-                    setattr(cls, an, f.__wrapped__)
+                    if "%s.%s" % (name, an) in known:
+                        setattr(cls, an, f.__wrapped__)
+                    else:
+                        unknown.append("%s.%s" % (name, an))
+    d["__symx_lru__"] = unwrapped
+    d["__symx_unknown_caches__"] = unknown
 
 
 class _Finder(importlib.abc.MetaPathFinder):
